@@ -48,6 +48,17 @@ def expand_structural(n, mf, has_fork, fork_k, has_foreign):
         m.append({"kind": "swap_fork"})
         m.append({"kind": "add_fork"})
         m.append({"kind": "end_in_fork"})
+    # the same record with an unfinished (uncommitted) patch on top: everything committed
+    # below it is still protected
+    m.append({"kind": "tail_none"})
+    m.append({"kind": "tail_flip", "i": n - 1, "off": 0.5, "bit": 3})
+    if n > 1:
+        m.append({"kind": "tail_flip", "i": 0, "off": 0.3, "bit": 1})
+        m.append({"kind": "tail_remove", "i": n - 1})
+    if mf:
+        m.append({"kind": "tail_drop_manifest"})
+        m.append({"kind": "tail_manifest_flip", "off": 0.5, "bit": 0})
+        m.append({"kind": "tail_manifest_edit"})
     if mf:
         m.append({"kind": "drop_manifest"})
         m.append({"kind": "manifest_flip", "off": 0.5, "bit": 0})
@@ -419,6 +430,47 @@ class FilesetEngine:
                 b += bytes(m.get("n", 1))
             open(p, "wb").write(bytes(b))
             exp = ("reject",)
+        elif k.startswith("tail_"):
+            # an unfinished patch is put on top with the library itself, then the committed part
+            # below it is corrupted
+            name = files[0][: -len(".ih5")]
+            try:
+                rec = self._cls(os.path.join(d, name), "r+")
+                rec["tail_ds"] = 5
+                newf = os.path.basename(str(rec.ih5_files[-1]))
+                rec.close(commit=False)
+            except Exception as e:
+                raise env.HarnessError(f"cannot put an uncommitted patch on the valid set: {type(e).__name__}: {e}")
+            order.append(newf)
+            exp = ("accept", None)  # control: opens (the view includes the unfinished patch)
+            if k == "tail_flip":
+                i = m["i"] % n
+                pth = os.path.join(d, files[i])
+                b = bytearray(open(pth, "rb").read())
+                plen = len(b) - UB
+                if plen <= 0:
+                    return None
+                b[UB + min(plen - 1, int(m["off"] * plen))] ^= 1 << (m["bit"] % 8)
+                open(pth, "wb").write(bytes(b))
+                exp = ("reject",)
+            elif k == "tail_remove":
+                f = files[m["i"] % n]
+                order.remove(f)
+                os.unlink(os.path.join(d, f))
+                exp = ("reject",)
+            elif k in ("tail_drop_manifest", "tail_manifest_flip", "tail_manifest_edit"):
+                pth = os.path.join(d, files[-1] + "mf.json")
+                if k == "tail_drop_manifest":
+                    os.unlink(pth)
+                elif k == "tail_manifest_flip":
+                    b = bytearray(open(pth, "rb").read())
+                    b[int(m["off"] * (len(b) - 1))] ^= 1 << (m["bit"] % 8)
+                    open(pth, "wb").write(bytes(b))
+                else:
+                    j = json.loads(open(pth).read())
+                    j["manifest_exts"] = {"tampered": True}
+                    open(pth, "w").write(json.dumps(j, indent=2) + "\n")
+                exp = ("reject",)
         else:
             raise env.HarnessError(f"unknown mutation {k}")
         return order, exp, cls_override
@@ -469,6 +521,7 @@ class FilesetEngine:
         env.install_uuid_seam()
         cls_of = {"ih5": w.IH5Record, "mf": w.IH5MFRecord}
         cls = cls_of["mf" if info["mf"] else "ih5"]
+        self._cls = cls
         fork = self.build_fork(case, scratch, info, cls)
         foreign = self.build_foreign(case, scratch) if case["cfg"].get("foreign") else None
         n = len(info["files"])
@@ -516,7 +569,7 @@ class FilesetEngine:
                 if out["status"] != "opens":
                     viol.append(self.v("rejected-valid", m, f"valid set ({json.dumps(m)}) is refused: {out.get('exc')}: {out.get('msg')}", case))
                     break
-                if out.get("errs") or out.get("dump") != exp[1]:
+                if exp[1] is not None and (out.get("errs") or out.get("dump") != exp[1]):
                     viol.append(self.v("wrong-view", m, f"valid set ({json.dumps(m)}) opens with a different tree: {out.get('errs') or V.diff_dumps(exp[1], out.get('dump') or {})}", case))
                     break
                 probes["accepted_as_expected"] = probes.get("accepted_as_expected", 0) + 1
